@@ -245,16 +245,21 @@ def ref_touch(p, a):
     isn, et = expire_time_spec(a['expire'], t0)
     if p.kind != 'return':
         return z3.BoolVal(False)
+    changed = z3.And(w1['T.expire_time?'] == z3.Store(w0['T.expire_time?'], r, isn),
+                     z3.Implies(z3.Not(isn), z3.Select(w1['T.expire_time'], r) == et),
+                     others_unchanged(w0, w1, r),
+                     *[w1['T.' + c] == w0['T.' + c] for c in SM.COLS if c != 'expire_time'],
+                     w1['T.live'] == w0['T.live'], w1['T.idx'] == w0['T.idx'],
+                     *[w1['S.' + s] == w0['S.' + s] for s in SM.SETTINGS])
+    yes, no = z3.And(vis, changed), z3.And(z3.Not(vis), eq_world(w0, w1))
     if p.value is True:
-        changed = z3.And(w1['T.expire_time?'] == z3.Store(w0['T.expire_time?'], r, isn),
-                         z3.Implies(z3.Not(isn), z3.Select(w1['T.expire_time'], r) == et),
-                         others_unchanged(w0, w1, r),
-                         *[w1['T.' + c] == w0['T.' + c] for c in SM.COLS if c != 'expire_time'],
-                         w1['T.live'] == w0['T.live'], w1['T.idx'] == w0['T.idx'],
-                         *[w1['S.' + s] == w0['S.' + s] for s in SM.SETTINGS])
-        return z3.And(vis, changed)
+        return yes
     if p.value is False:
-        return z3.And(z3.Not(vis), eq_world(w0, w1))
+        return no
+    if isinstance(p.value, SV) and p.value.ty == 'bool':
+        return z3.If(p.value.t, yes, no)        # a result computed from the database (e.g. a row count)
+    if isinstance(p.value, z3.BoolRef):
+        return z3.If(p.value, yes, no)
     return z3.BoolVal(False)
 
 
